@@ -192,16 +192,18 @@ class WorkflowState(object):
         if not ctxs:
             ctxs = [0]
 
+        # Copy the given containers so the staged entry does not share them with a task
+        # state entry (or another staged entry) which may be updated independently.
         entry = {
             "id": task_id,
-            "ctxs": {"in": ctxs},
+            "ctxs": {"in": json_util.deepcopy(ctxs)},
             "route": route,
-            "prev": prev if isinstance(prev, dict) else {},
+            "prev": json_util.deepcopy(prev) if isinstance(prev, dict) else {},
             "ready": ready,
         }
 
         if retry:
-            entry["retry"] = retry
+            entry["retry"] = json_util.deepcopy(retry)
 
         self.staged.append(entry)
 
@@ -815,11 +817,13 @@ class WorkflowConductor(object):
         if not in_ctx_idxs:
             in_ctx_idxs = [0]
 
+        # Copy the given containers so the task state entry does not share them with the
+        # staged task. The staged task may be updated later when another branch arrives.
         task_state_entry = {
             "id": task_id,
             "route": route,
-            "ctxs": {"in": in_ctx_idxs},
-            "prev": prev or {},
+            "ctxs": {"in": json_util.deepcopy(in_ctx_idxs)},
+            "prev": json_util.deepcopy(prev) if prev else {},
             "next": {},
         }
 
